@@ -419,3 +419,57 @@ def _ranges(ls):
         out.append(str(ls[i]) if i == j else '%d-%d' % (ls[i], ls[j]))
         i = j + 1
     return ','.join(out)
+
+
+# ---------------------------------------------------------------------------------------------------------------
+# Generated tie (DESIGN section 13): harness/gen_check.sh regenerates the Gallina text of the translated functions from the
+# CURRENT source (harness/py2v.py, fail-closed) and re-checks in Coq that each equals the hand model (coq/gen/GenLinks.v).
+GEN_TARGETS = {
+    'C01': ['TcpConnection_has_buffer', 'TcpConnection_queue'],
+    'C03': ['find_http_line', 'ChunkParser_process'],
+    'C06': ['build_http_header', 'header_key', 'build_http_pkt', 'build_http_response'],
+    'C08': ['AuthPlugin_before_upstream_connection'],
+    'C14': ['Url_parse', 'Url_from_bytes'],
+    'C16': ['apply_mask'],
+    'C15': ['build_http_header', 'header_key', 'build_http_pkt', 'build_http_response', 'build_http_request', 'to_chunks',
+            'find_http_line', 'ChunkParser_process'],
+    'C20': ['HttpProtocolHandler_connection_inactive_for', 'HttpProtocolHandler_is_inactive'],
+}
+
+
+def gen_check_start(pid):
+    """start harness/gen_check.sh in the background (it only reads /verif/coq and works in its own temp dir)"""
+    if pid not in GEN_TARGETS or os.environ.get('VERIF_NO_GEN') or not (VERIF / 'harness' / 'gen_check.sh').exists():
+        return None
+    return subprocess.Popen(['bash', str(VERIF / 'harness' / 'gen_check.sh'), str(REPO)], stdout=subprocess.PIPE,
+                            stderr=subprocess.STDOUT, text=True)
+
+
+def gen_check_finish(pid, proc, timeout=1500):
+    """-> dict(ok, targets (of this property), broken [(name, why)], summary line, differs)"""
+    if proc is None:
+        return None
+    try:
+        out, _ = proc.communicate(timeout=timeout)
+        rc = proc.returncode
+    except subprocess.TimeoutExpired:
+        proc.kill()
+        out, rc = 'GEN-BROKEN: gen_check.sh : timed out', 1
+    mine = GEN_TARGETS[pid]
+    broken = []
+    for line in out.splitlines():
+        if line.startswith('GEN-BROKEN:'):
+            name, _, why = line[len('GEN-BROKEN:'):].partition(' : ')
+            name = name.strip().split(' ')[0]
+            # a problem that names another property's function does not concern this one; anything else
+            # (translator, support library, preamble, audit, time-out) concerns every property that relies on the tie
+            everyones = [t for ts in GEN_TARGETS.values() for t in ts]
+            if name in mine or name not in everyones:
+                broken.append((name, why.strip()[:300]))
+    summary = next((l for l in out.splitlines() if l.startswith('GEN:')), '')
+    m = re.search(r'regenerated_differs_from_committed=(\w+)', summary)
+    ok = not broken and bool(summary) and (rc == 0 or all(False for _ in broken))
+    if rc != 0 and not broken and not summary:
+        broken.append(('gen_check.sh', out[-300:]))
+        ok = False
+    return dict(ok=ok, targets=mine, broken=broken, summary=summary, differs=(m.group(1) if m else None), rc=rc)
